@@ -72,6 +72,12 @@ def arr_attr(ex, st, arr, name):
         return arr.view(arr.a.T)
     if name == "dtype":
         return {"f": "float64", "i": "int64", "b": "bool", "O": "object"}[arr.kind]
+    if name == "value" and hasattr(arr, "problem"):
+        from . import cvxmodel
+
+        if arr.problem is None or arr.problem.solved is None:
+            return None
+        return cvxmodel.CvxValue(arr.problem.solved["feas"])
     return sx.BoundLib(arr, name)
 
 
@@ -695,6 +701,31 @@ def np_cholesky(ex, st, args, kwargs):
     return Lm
 
 
+def mat_uf(name, a):
+    """Matrix-valued library function as one uninterpreted function per entry (function of all entries)."""
+    a = L.as_arr(a)
+    if a.ndim != 2 or a.shape[0] != a.shape[1]:
+        raise L.ShapeError(name + " of non-square")
+    n = a.shape[0]
+    ents = [V.R(x) for x in a.flat()]
+    out = []
+    for i in range(n):
+        for j in range(n):
+            f = z3.Function("%s%d_%d_%d" % (name, n, i, j), *([z3.RealSort()] * (n * n + 1)))
+            out.append(f(*ents))
+    return L.mk(out, (n, n), "f")
+
+
+def np_inv(ex, st, args, kwargs):
+    L.used("numpy.linalg.inv: opaque matrix function M(A) with M@A == A@M == I for invertible A (identity not needed by any proof)")
+    return mat_uf("inv", args[0])
+
+
+def sp_sqrtm(ex, st, args, kwargs):
+    L.used("scipy.linalg.sqrtm: opaque matrix function S(A), symmetric with S@S == A for SPD A (identity not needed by any proof)")
+    return mat_uf("sqrtm", args[0])
+
+
 def np_det(ex, st, args, kwargs):
     L.used("numpy.linalg.det: opaque")
     return z3.Real("det!%d" % V.fresh_id())
@@ -729,7 +760,7 @@ NP = {
     "numpy.matmul": np_matmul, "numpy.dot": np_dot, "numpy.where": np_where, "numpy.delete": np_delete,
     "numpy.allclose": np_allclose, "numpy.array_equal": np_array_equal, "numpy.copy": np_copy,
     "numpy.isscalar": np_isscalar, "numpy.linalg.cholesky": np_cholesky, "numpy.linalg.det": np_det,
-    "numpy.random.normal": np_random_normal,
+    "numpy.random.normal": np_random_normal, "numpy.linalg.inv": np_inv, "scipy.linalg.sqrtm": sp_sqrtm,
 }
 
 
@@ -757,6 +788,10 @@ NP["itertools.combinations"] = it_combinations
 
 def call_method(ex, st, obj, name, args, kwargs, node):
     sx = _sx()
+    from . import cvxmodel
+
+    if isinstance(obj, cvxmodel.CvxProblem) and name == "solve":
+        return cvxmodel.problem_solve(ex, st, obj, args, kwargs)
     if isinstance(obj, SArr):
         return arr_method(ex, st, obj, name, args, kwargs)
     if isinstance(obj, list):
